@@ -122,42 +122,6 @@ theorem gzipRun_cases (blocks : List Block) (path ae : Bytes) (i : Inner) :
   · left
     simp [hae]
 
-/-! ### sniffing: 512 collected bytes are as good as 2048 -/
-
-theorem collect_prefix (limit : Nat) (a : Bytes) (evs : List Ev) : a <+: collect limit a evs := by
-  induction evs generalizing a with
-  | nil => exact List.prefix_refl _
-  | cons e r ih =>
-    cases e with
-    | flush => exact List.prefix_refl _
-    | write b =>
-      unfold collect
-      split
-      · exact List.prefix_append _ _
-      · exact List.IsPrefix.trans (List.prefix_append _ _) (ih (a ++ b))
-
-theorem take_of_prefix {a c : Bytes} (h : a <+: c) (hl : 512 ≤ a.length) : c.take 512 = a.take 512 := by
-  obtain ⟨t, rfl⟩ := h
-  rw [List.take_append_of_le_length hl]
-
-theorem collect_same (a : Bytes) (evs : List Ev) :
-    (collect 2048 a evs).take 512 = (collect 512 a evs).take 512 := by
-  induction evs generalizing a with
-  | nil => rfl
-  | cons e r ih =>
-    cases e with
-    | flush => rfl
-    | write b =>
-      unfold collect
-      by_cases h1 : (a ++ b).length ≥ 2048
-      · have h2 : (a ++ b).length ≥ 512 := by omega
-        simp only [h1, h2, if_true]
-      · by_cases h2 : (a ++ b).length ≥ 512
-        · simp only [h1, h2, if_true, if_false]
-          exact take_of_prefix (collect_prefix 2048 (a ++ b) r) h2
-        · simp only [h1, h2, if_false]
-          exact ih (a ++ b)
-
 /-! ### a coding listed verbatim is a coding offered -/
 
 theorem mem_trimLeft {x : UInt8} {s : Bytes} (hx : x ∈ s) (hs : isSpace x = false) : x ∈ trimLeft s := by
